@@ -29,13 +29,13 @@ MANIFEST = {
                   "reports become SharedWrite events that the specification has no action for; the sequential frame check sees "
                   "writes to the router without any race but not writes to shared state outside the router object; plans are "
                   "compared through their rendered per-slice SQL (a recording plan.Executor), statements come from a fixed "
-                  "universe of 18 statements x 2 session databases (reads of global tables, whose slice the planner picks at random, are left out); interleavings are whatever the Go scheduler produces.",
+                  "universe of 28 statements (incl. mycat rules, DATABASE() hints, /* !mycat:sql= */ hint statements, linked-to-mycat and global rules) x 3 session databases (reads of global tables, whose slice the planner picks at random, are left out); interleavings are whatever the Go scheduler produces.",
     "technique": "TLA+ spec + TLC exhaustive check; TLC-generated workloads on real planning code; recorded events judged by TLC",
 }
 
 HARNESS = ["proxy/server/proto_common_test.go", "proxy/server/planiso_test.go"]
 RUN = "^TestVerifPlanIsolation$"
-NSTMTS = 18
+NSTMTS = 28
 
 MC_CFG = """SPECIFICATION Spec
 CONSTANTS
@@ -55,7 +55,7 @@ GEN_CFG = """SPECIFICATION GenSpec
 CONSTANTS
   Sessions = {%(sessions)s}
   Stmts = {%(stmts)s}
-  Dbs = {"d1", "d2"}
+  Dbs = {"d1", "d2", "d3"}
   Routers = {"r"}
   MaxSteps = 100000
   GenLen = %(len)d
@@ -184,7 +184,7 @@ def run(ctx):
         e = rec["case"]["event"]
         if e["ev"] == "sharedwrite":
             steps = [{"s": "s%d" % (i % 16 + 1), "stmt": q, "db": d} for i in range(64) for q, d in
-                     [(("q4", "q5", "q7", "q9", "q14", "q1")[i % 6], ("d1", "d2")[(i // 3) % 2])]]
+                     [(("q4", "q5", "q7", "q20", "q14", "q22")[i % 6], ("d1", "d2", "d3")[(i // 3) % 3])]]
             race_run(ctx, [{"id": "replay", "steps": steps}])
             return
         steps = [{"s": "s1", "stmt": e.get("stmt", "q4"), "db": e.get("db", "d1")}]
@@ -248,7 +248,7 @@ def run(ctx):
     ctx.cov["distinct_nontrivial"] = len({(e["s"], e["stmt"], e["db"]) for e in lines if e["ev"] == "cplan"})
     ctx.cov["rule"] = ("distinct (session, statement, database) triples planned while other sessions were planning; statements "
                        "cover sharded by key / scatter / group-by / insert / update / delete / linked / global / date / range / "
-                       "explain, unsharded fast path with and without database qualifier, field-list lookups; %d distinct "
+                       "explain, mycat rules with DATABASE() and mycat:sql hints, unsharded fast path with and without database qualifier, field-list lookups; %d distinct "
                        "(statement, database) pairs" % len(distinct))
     ctx.log("judged", len(lines), "events:", nplan, "bracketed calls,", ncplan, "concurrent calls,", ndev, "non-conforming")
 
